@@ -1910,6 +1910,10 @@ func (t *Topic) anotherUserSub(sess *Session, asUid, target types.Uid, asChan bo
 			modeGiven = t.accessFor(auth.LevelAuth)
 			// Enable new subscription even if default is no joiner.
 			modeGiven |= types.ModeJoin
+			if t.cat == types.TopicCatP2P {
+				// P2P topics have no default access of their own: same sanity rule as for an explicit mode.
+				modeGiven = (modeGiven & types.ModeCP2P) | types.ModeApprove
+			}
 		}
 
 		var modeWant types.AccessMode
